@@ -102,7 +102,9 @@ def run_C15(tier, seed):
     return simple("C15", tier, seed, "exploration",
                   "cases = one store of 2..12000 (thorough ..65537) entries with a unique id, 1..2 deferred reference properties bound "
                   "to other entries' handles (patterns next/prev/self/permutation/all-to-one/random, rotating with the case index), "
-                  "unsorted or sorted on a distinct uint/sint/array key, optional variants carrying a reference; every stored reference "
+                  "unsorted or sorted on a distinct uint/sint/array key, optional variants carrying a reference, half of the cases with a reference "
+                  "kept in a SIGNED column through a closure word; one case in twelve has two stores, a small one whose entries refer to entries "
+                  "of a big one sorted in reverse insertion order, added before or after it; every stored reference "
                   "and every handle returned by add_entry is compared with the position at which the referenced entry is read back. "
                   "Non-trivial = a reference column and >= 2 entries. Distinct = hash(schema, pattern, sortedness, size class, windows).",
                   assumptions=["final positions are recomputed by the model: insertion order, or a stable sort on the unique key",
@@ -218,7 +220,9 @@ def run_C13(tier, seed):
                   "slices of a directory pack > 4 KiB), background-decoded (zstd/lz4/lzma clusters)} x 3..9 contents (40 entries for "
                   "mmap) x a random tree of view operations to depth 3 per content: size, stream() and ByteStream::from read with random "
                   "partitions (sizes 0, 1, 4096, oversize) checking offset()/size_left()/size() after each read, get_slice, as_slice, "
-                  "cut of cut, ByteSlice->ByteRegion and back. Every view must equal the corresponding sub-range of the regenerated bytes "
+                  "cut of cut, ByteSlice->ByteRegion and back; half of the cases hold a content of 1.1..2.6 MiB that is asked for in one read call; "
+                  "a third of the file cases end by cutting the file short inside a content after the pack was opened (slice view: error or the "
+                  "content; stream view: error or a prefix of it). Every view must equal the corresponding sub-range of the regenerated bytes "
                   "(or of the file bytes located by the independent decoder for mmap). Non-trivial = at least one content that is not "
                   "first in its source. Distinct = hash(source kind, operation seed).",
                   assumptions=["only valid sub-ranges are generated", "thorough: the quick case set is also run under an AddressSanitizer build, and 6 seeds of a small memory-source round trip with the same view operations under Miri (Tree Borrows)"],
@@ -230,7 +234,8 @@ LAB_RULE = ("specimens built from the seed: four ~2-3 KB containers (OneFile zst
             "table exceeds 4 KiB and is read through mmap, 3 clusters incl. multi-MiB compressed ones, entry store > 4 KiB), three containers made "
             "with the low-level creators and joined by tools::concat (three content packs sharing the empty location, pack ids from 1 or from 0; "
             "one with an extra pack missing), and one whose content table exceeds 64 KiB (17 000 contents in a file of its own). Structures of "
-            "4 KiB and more get 32x the positions and mid-byte masks; files are also cut exactly at every pack boundary. Damage: "
+            "4 KiB and more get 32x the positions and mid-byte masks; files are also cut exactly at every pack boundary; compressed clusters "
+            "of 64 KiB and more get 140 KiB of noise in their middle and at three quarters. Damage: "
             "single-byte XOR with 0x01/0x80/0xff (quick: every byte of the first specimen + 1/4 of the others + k positions per named structure "
             "of the medium one; thorough: EVERY byte x 3 masks of the small specimens), 2-8 byte multi-flips inside one pack, zeroed / "
             "overwritten ranges")
@@ -280,7 +285,9 @@ def run_C05(tier, seed):
                  "appended garbage, replacement by non-jubako files; at ANY file position. Oracle: item-wise comparison of the reader's dump "
                  "(pack list, index windows, every entry's variant and property values, content sizes and blake3) with the pristine dump of "
                  "the same file: every structural item is identical or an error; content bytes may differ only if Container::check() is not "
-                 "Ok(true). Crashes are C06's subject (counted as 'no silent difference'). Non-trivial = >= 1 byte of a named structure "
+                 "Ok(true). After damage in a pack description of a manifest, the location of that very pack is rewritten with "
+                 "tools::set_location (which re-serialises the description with a fresh CRC) and the pack list is dumped again under the same rule. "
+                 "Crashes are C06's subject (counted as 'no silent difference'). Non-trivial = >= 1 byte of a named structure "
                  "changed. Distinct = (specimen, file, damage).",
                  ["the pristine dump of the very same file (same uuids) is the reference"])
     for profile in ("debug", "release"):
@@ -334,7 +341,7 @@ def run_C08(tier, seed):
                  "through the size limit and fill the queue), runs of raw contents, runs mixing memory / file / file-range sources and "
                  "hints in the same clusters, contents of one cluster or more followed by a duplicate; every third sequence goes through "
                  "the deduplicating adder; runs of raw-only clusters; half of the sequences end on clusters holding nothing but empty "
-                 "contents; 25..80 clusters each. Worker counts {1,2,4,15} quick / "
+                 "contents; one sequence in five holds a 17 MiB content (more than the compression queue of one or two workers holds); 25..80 clusters each. Worker counts {1,2,4,15} quick / "
                  "1..15 thorough through the CPU affinity seen by available_parallelism; 4 / 8 delay seeds rotating over the profiles "
                  "uniform heavy-tailed 0-20 ms per (callback, cluster), one slow worker, slow writer, slow workers with a fast main thread. "
                  "Monitors: offline checker over the Progress event log (each cluster opened, handled and written exactly once in that order, "
